@@ -17,6 +17,9 @@ class Gen:
         self.meta.append(meta)
 
 
+Q = O.Q
+
+
 def relation(E, P, S):
     if P is None and S is None:
         return 'O+O'
@@ -90,6 +93,22 @@ def gen(g, gc, pool, rng, n, directed):
             # chains that return to a previous point: (P + S) - S and P + P through add
             emit_pair(g, gc, rng, P, P, tp, tp)
             emit_pair(g, gc, rng, P, E.neg(P), tp, tp)
+        # operands RELATED by the curve's automorphism (x, y) -> (beta x, y): same y, different x (an "equal points" test that looks at one
+        # coordinate only, or at y alone, goes wrong here), and its composition with negation
+        beta = next(pow(g0, (Q - 1) // 3, Q) for g0 in range(2, 60) if pow(g0, (Q - 1) // 3, Q) != 1)
+        for k in (1, 3, pool.keys[-1]):
+            P0 = pool.dl[k]
+            if P0 is None:
+                continue
+            x0, y0 = P0
+            for bp in (beta, beta * beta % Q):
+                Sx = (x0 * bp % Q) if gc.which == 1 else (x0[0] * bp % Q, x0[1] * bp % Q)
+                S0 = (Sx, y0)
+                assert E.on_curve(S0)
+                for _ in range(2):
+                    emit_pair(g, gc, rng, P0, S0, 'sub', 'same-y')
+                    emit_pair(g, gc, rng, S0, P0, 'same-y', 'sub')
+                    emit_pair(g, gc, rng, P0, E.neg(S0), 'sub', 'same-y-negated')
         # every structured representative (z = -1, 1+tu, u, the value whose limbs read 1, ...) through every operation and relation
         P = pool.dl[3]
         S = pool.dl[2]
